@@ -543,7 +543,10 @@ impl Connection {
                     decoder::decode_with_atom_cache(&data, &mut self.atom_cache)?;
                 (control, payload_opt)
             } else {
-                (decoder::decode(&data)?, None)
+                return Err(Error::Protocol(format!(
+                    "Expected pass-through marker {} or a distribution header, got {}",
+                    PASS_THROUGH, data[0]
+                )));
             };
 
             let control = ControlMessage::from_term(&control_term)?;
